@@ -261,13 +261,13 @@ def run(F, R, tier):
             rem = sum(1 for e in s.emits if e[0] == "-Pop")
             shapes = [sh for k, sh in s.facts.items() if k.startswith("shape:")]
             want_rem = sum(1 for sh in shapes if sh[1])
-            want_null = sum(1 for sh in shapes if not sh[1]) + (1 if s.facts.get("v:expr.else_if") == "Empty" else 0)
+            want_null = sum(1 for sh in shapes if not sh[1]) + (1 if e5run.cfact(s, r["pname"], "v", "$:If.else_if") == "Empty" else 0)
             if (nulls, rem) != (want_null, want_rem):
-                bad.append((sorted(shapes), s.facts.get("v:expr.else_if"), nulls, rem))
+                bad.append((sorted(shapes), e5run.cfact(s, r["pname"], "v", "$:If.else_if"), nulls, rem))
         R.ob("if-branch-value", "per branch: the block's own trailing Pop is removed when it ends in an expression statement, otherwise Null is emitted; no else → Null",
              not bad and bool(oks), "%d paths; mismatches: %s" % (len(oks), bad[:3]), F.loc(f))
-        kinds = {tuple(o[0] for o in s.order) for s in oks}
-        R.ob("if-shape", "condition first, then-block next, else part last", all(k[0] == "expr.condition" and k[1] == "expr.then_stmt" for k in kinds), str(sorted(kinds)), F.loc(f))
+        kinds = {tuple(o[0] for o in e5run.corder(s, r["pname"])) for s in oks}
+        R.ob("if-shape", "condition first, then-block next, else part last", all(k[0] == "$:If.condition" and k[1] == "$:If.then_stmt" for k in kinds), str(sorted(kinds)), F.loc(f))
         R.count("if-expression paths", len(oks))
     # ---- (c) match -------------------------------------------------------------------------------------------------------------------
     pa = pattern_arms(F, R, eng)
@@ -320,8 +320,8 @@ def run(F, R, tier):
     mf = F.fn(C + "compile_match_expression")
     if R.anchor("Expression::Match arm", r) and mf is not None:
         oks = [s for t, s in r["ends"] if t == "ok"]
-        firsts = {s.order[0] for s in oks if s.order}
-        R.ob("match-scrutinee-once", "the scrutinee is compiled first", bool(firsts) and all(k.endswith(".expr") and c == "G" for k, c in firsts), str(sorted(firsts)), F.loc(mf))
+        firsts = {e5run.corder(s, r["pname"])[0] for s in oks if s.order}
+        R.ob("match-scrutinee-once", "the scrutinee is compiled first", bool(firsts) and all(k == "$:Match.expr" and c == "G" for k, c in firsts), str(sorted(firsts)), F.loc(mf))
         b = H.body_of(mf)
         calls = [c for c in H.walk(b) if c.get("k") == "mcall" and c["m"] == "compile_expression"]
         in_loops = []
